@@ -5,7 +5,7 @@ from trees import *
 from polys import *
 
 
-def gen_configurator(rng, quick=True, int_leaf=False, nested=True, top_items=False, nest_p=0.3, fix_root_p=0.0, odd_items_p=0.0):
+def gen_configurator(rng, quick=True, int_leaf=False, nested=True, top_items=False, nest_p=0.3, fix_root_p=0.0, odd_items_p=0.0, multi_default_p=0.0):
     """AST of a StingyConfigurator over boolean items (optionally one integer item `t`)"""
     items = list("abcdefgh")[:rng.randint(3, 5 if quick else 7)]
     # item ids come in several shapes; some look like generated ids ("VAR…"), some contain blanks / dashes / non-ASCII
@@ -44,7 +44,7 @@ def gen_configurator(rng, quick=True, int_leaf=False, nested=True, top_items=Fal
         a = {}
         if rng.random() < 0.7: a["id"] = rid()
         if kind in ("ccAny", "ccXor", "ccAnyD", "ccXorD"):
-            args = group(rng.randint(2, 3))
+            args = group(rng.randint(2, 4) if kind.endswith("D") and multi_default_p else rng.randint(2, 3))
             if nested and depth > 0 and rng.random() < nest_p:
                 # choices nested in choices — half of the time a defaulted choice below a (defaulted) choice
                 args.append(rule(depth - 1, ("ccAnyD", "ccXorD")) if rng.random() < 0.5 else rule(depth - 1))
@@ -54,6 +54,12 @@ def gen_configurator(rng, quick=True, int_leaf=False, nested=True, top_items=Fal
                 containing = [d for d in cands if any(o != d and o in d for o in cands)]
                 # (when ids contain one another, mostly the longer one is the default)
                 a["default"] = [rng.choice(containing) if containing and rng.random() < 0.7 else rng.choice(cands)]
+                if multi_default_p and len(cands) >= 3 and rng.random() < multi_default_p:
+                    # several defaults in the caller's order of preference (the first one is THE default), possibly with an
+                    # entry that is no alternative at all
+                    more = [c for c in cands if c != a["default"][0]]
+                    a["default"] = a["default"] + rng.sample(more, rng.randint(1, len(more) - 1) if len(more) > 1 else 1)
+                    if rng.random() < 0.2: a["default"].insert(rng.randint(1, len(a["default"])), "zz-none")
         elif kind == "AtMost":
             a.update(c="AtMost", v=rng.randint(1, 2), args=group(rng.randint(2, 3)))
         elif kind in ("All", "Any", "Xor", "ExactlyOne", "XNor"):
@@ -96,7 +102,7 @@ def gen_configurator(rng, quick=True, int_leaf=False, nested=True, top_items=Fal
     return cfg
 
 
-def valid_configurator(rng, quick=True, **kw):
+def valid_configurator(rng, quick=True, dup_top_p=0.0, **kw):
     for _ in range(200):
         a = gen_configurator(rng, quick, **kw)
         try:
@@ -111,6 +117,18 @@ def valid_configurator(rng, quick=True, **kw):
         if any(len(v) > 1 for v in prios.values()):
             continue        # a generated id shared by a prio-tagged and an untagged node: which tag flatten() keeps is arbitrary
         if well_formed(t) and not o.errors() and (free01(t) or (kw.get("fix_root_p") and a.get("$fix") is not None)):
+            if dup_top_p and rng.random() < dup_top_p:
+                # the same item / the same rule object listed twice directly under an otherwise valid configurator (errors()
+                # reports the repeated child; add() and the constructor accept such configurators all the same)
+                a2 = copy.deepcopy(a)
+                r = rng.choice(a2["args"])
+                if r.get("c") not in ("str", "var") and "$k" not in r: r["$k"] = 8000 + rng.randint(1, 999)
+                a2["args"].insert(rng.randint(0, len(a2["args"])), r if r.get("c") not in ("str", "var") else dict(r))
+                try:
+                    o2 = build(a2)
+                    return a2, o2, snap(o2)
+                except Exception:
+                    pass
             return a, o, t
     raise RuntimeError("no valid configurator generated")
 
